@@ -46,7 +46,8 @@ def mkparams():
         elif k == "N":
             ps.append(ConstParam(i, f"n{i}", NAT))
         else:
-            ps.append(ConstParam(i, f"d{i}", BoundTypeVar("T0", 0, False, False)))
+            c0, d0 = _BOUNDS[KINDS[0]]
+            ps.append(ConstParam(i, f"d{i}", BoundTypeVar("T0", 0, c0, d0)))
     return ps
 
 
@@ -62,14 +63,19 @@ def mention(p, shape):
     return [TupleType([INT]), TupleType([FLT]), NoneType()][shape]   # (not mentioned: such consts occur as comptime values only)
 
 
-def arg_for(p, sel, t0_choice):
+def arg_for(p, sel, t0):
     if isinstance(p, TypeParam):
         return TypeArg(CLOSED_T[sel] if sel == 0 or p.must_be_copyable else array_type(INT, 2))   # (a non-copyable argument only where the bound allows it)
     if p.ty == NAT:
         return ConstArg(ConstValue(NAT, sel))
     # const of type T0: its value must have the type chosen for T0
-    t0 = CLOSED_T[t0_choice]
     return ConstArg(ConstValue(t0, sel))
+
+
+def args_for(ps, sels):
+    first = arg_for(ps[0], sels[0], None)
+    t0 = first.ty if isinstance(first, TypeArg) else None
+    return [first] + [arg_for(p, s, t0) for p, s in zip(ps[1:], sels[1:])]
 
 
 _SHAPES3 = [(0, 1, 2), (1, 2, 0), (2, 0, 1), (0, 0, 0), (1, 1, 1), (2, 2, 2), (0, 2, 1), (2, 1, 0)]   # every shape at every position
@@ -96,7 +102,7 @@ def h_laws(case: int) -> bool:
     with NoTracing():
         ps = mkparams()
         f = _sig(ps, shapes)
-        full = [arg_for(p, s, sels[0]) for p, s in zip(ps, sels)]
+        full = args_for(ps, sels)
         if "D" in KINDS and mask[0] is False and any(m for k, m in zip(KINDS, mask) if k == "D"):
             return True   # a const of type T0 cannot be supplied before T0 itself (ill-formed instantiation)
         partial = [a if m else None for a, m in zip(full, mask)]
@@ -161,7 +167,7 @@ def h_monomorphize(case: int) -> bool:
     shapes, mask, sels = _MONO_CASES[realize(case)]
     with NoTracing():
         ps = mkparams()
-        full = [arg_for(p, s, sels[0]) for p, s in zip(ps, sels)]
+        full = args_for(ps, sels)
         mono, rem = CC.partially_monomorphize_args(ps, full, _Ctx())
         # which parameters need monomorphisation *after* this instantiation: consts whose (instantiated) type is not nat, and the
         # type parameters their declared type mentions
